@@ -498,7 +498,23 @@ pub fn run(tier: &str, seed: u64, report: &mut Report) {
         std::fs::create_dir(&src).unwrap();
         let arch_dir = tempfile::tempdir().unwrap();
         let arch_path = arch_dir.path().join("a");
-        let tree_desc = build_tree(&mut crng, &src);
+        let mut tree_desc = build_tree(&mut crng, &src);
+        // directed cases first: a file whose STORED mtime is a whole second / has a fraction / is at or
+        // before the epoch, then changed by a sub-second or whole-second amount only (size, mode, owner equal)
+        const DIRECTED: &[(i128, i128)] = &[
+            (1_700_000_000 * NS, 1), (1_700_000_000 * NS, 250_000_000), (1_700_000_000 * NS + 125_000_000, 250_000_000),
+            (1_700_000_000 * NS + 125_000_000, -125_000_000), (0, 1), (-5 * NS, 1), (1_700_000_000 * NS, NS), (1_700_000_000 * NS, -1),
+            (-5 * NS + 500_000_000, -500_000_000), (1_700_000_000 * NS + 999_999_999, 1),
+        ];
+        let directed = if case_no < DIRECTED.len() { Some(DIRECTED[case_no]) } else { None };
+        if let Some((stored, _)) = directed {
+            let p = src.join("zz-mt");
+            if std::fs::symlink_metadata(&p).is_err() {
+                std::fs::write(&p, b"stamp").unwrap();
+            }
+            set_mtime(&p, stored);
+            tree_desc.push(format!("file /zz-mt mtime={stored}"));
+        }
         let s0 = snapshot(&src);
         let archive = block_on(async {
             let archive = Archive::create_path(&arch_path).await.unwrap();
@@ -507,7 +523,19 @@ pub fn run(tier: &str, seed: u64, report: &mut Report) {
             archive
         });
         // first case of every 4 is left unmodified: "the very tree it was made from"
-        let (mut_desc, expects) = if case_no % 4 == 0 { (vec![], vec![]) } else { mutate(&mut crng, &src, &s0, report) };
+        let (mut_desc, expects) = if let Some((stored, delta)) = directed {
+            if s0.get("/zz-mt").map(|st| st.kind == 'f').unwrap_or(false) {
+                set_mtime(&src.join("zz-mt"), stored + delta);
+                report.hit("mut:directed-mtime-only");
+                (vec![format!("mtime-only /zz-mt {}", stored + delta)], vec![Expect::Class("/zz-mt".into(), "changed")])
+            } else {
+                (vec![], vec![])
+            }
+        } else if case_no % 4 == 0 {
+            (vec![], vec![])
+        } else {
+            mutate(&mut crng, &src, &s0, report)
+        };
         let s1 = snapshot(&src);
         let canonical = format!("{}|{}", tree_desc.join(";"), mut_desc.join(";"));
         let case = || json!({"tree": tree_desc, "mutations": mut_desc});
